@@ -480,9 +480,13 @@ func (p *Packer) Unpack(r io.Reader, dst string) error {
 			}
 		}
 
-		// Copy the contents of the file.
+		// Copy the contents of the file. An error from Close is a write
+		// error too (the data may only be flushed then), so it is reported
+		// unless the copy already failed.
 		_, err = io.Copy(fh, untar)
-		fh.Close()
+		if closeErr := fh.Close(); err == nil {
+			err = closeErr
+		}
 		if err != nil {
 			return fmt.Errorf("failed to copy slug file %q: %w", info.Path, err)
 		}
